@@ -70,6 +70,10 @@ def term_true(spec, hist):
     return (any if spec[0] == 'Or' else all)(term_true(t, hist) for t in spec[1:])
 
 
+def _plain_map(f, *args, **kwds):
+    return [f(*a) for a in zip(*args)]
+
+
 def run_seq(sc):
     """returns dict(violations=[(clause, detail)], begun, calls, aborted)"""
     seed_all(sc['seed'])
@@ -84,6 +88,11 @@ def run_seq(sc):
     sh = dict(steps=0, G=None, E=None, exit=False, term=TERMS[sc.get('term', 'never')], n_begin=0, last=0,
               since_limit=0, op=-1, ncb=0, exit_at=None, g_at_set=0)
     s.SetTermination(build_term(sh['term']))
+    if sc.get('usermap') and kind == 'DE2':
+        # a user-supplied map (here an ordinary in-process one) together with a real evaluation monitor
+        from mystic.monitors import Monitor
+        s.SetMapper(_plain_map)
+        s.SetEvaluationMonitor(Monitor())
     s.SetObjective(rec)
     viol = []
 
@@ -259,6 +268,9 @@ def fam_limits(tier):
         body = [['run', 14], ['step'], ['step']] if mode == 'run' else [['solve', None]]
         yield dict(fam='limits', solver=kind, ndim=n, cost=cost, seed=11, key=[g, e, new, p, mode, cost, n],
                    ops=[['step']] * p + [['limits', g, e, new]] + body + tail)
+        if kind == 'DE2' and p in (0, 2):
+            yield dict(fam='limits', solver=kind, ndim=n, cost=cost, seed=11, key=[g, e, new, p, mode, cost, n, 'usermap'], usermap=True,
+                       ops=[['step']] * p + [['limits', g, e, new]] + body + tail)
 
 
 def fam_exit(tier):
@@ -289,7 +301,8 @@ def fam_random(tier, seed):
                         'term': ['term', rng.choice(sorted(TERMS))], 'exit': ['exit'],
                         'penalty': ['penalty', rng.choice(['none', 'quad_ineq', 'lin_eq'])]}[o])
         yield dict(fam='random', solver=SOLVERS[k % 4], ndim=rng.choice([1, 2, 3]), cost=rng.choice(['sphere', 'rosen', 'absum', 'shifted']),
-                   seed=rng.randrange(10 ** 6), term=rng.choice(sorted(TERMS)), key=[k], ops=ops)
+                   seed=rng.randrange(10 ** 6), term=rng.choice(sorted(TERMS)), key=[k], ops=ops,
+                   usermap=random.Random(seed * 13 + k).random() < 0.4)
 
 
 def fam_wrappers(tier, seed):
